@@ -60,6 +60,12 @@ impl State {
 //@use compile.fns State::dict_entry
 //@use compile.fns State::dict_pos
 //@use compile.fns State::defvar
+//@use compile.fns State::compile_xstr
+//@use compile.fns State::compile_file
+//@use compile.fns State::evalxstr
+//@use compile.fns State::eval_file
+//@use compile.fns State::compile
+//@use compile.fns State::eval
 //@use compile.fns State::defvar_anonymous
 //@use compile.fns State::run_immediate
 //@use compile.fns State::build_word
@@ -140,6 +146,8 @@ spec fn const_defined(d0: Seq<DictEntry>, d1: Seq<DictEntry>, t: Seq<char>, v: C
         && forall|j: int| 0 <= j < d0.len() && j != i ==> d1[j] == d0[j]
 }
 impl Xsubstr { #[verifier::external_body] pub fn as_str(&self) -> (r: &str) ensures r == sub_str(*self) { unimplemented!() } }
+// `&str -> ArcStr` (arcstr From): opaque
+#[verifier::external_body] fn verif_xstr_from_str(s: &str) -> Xstr { unimplemented!() }
 // `Xstr == str` (arcstr): equality of the texts
 #[verifier::external_body] fn xstr_eq_str(x: &Xstr, s: &str) -> (r: bool) ensures r == (xstr_text(*x) == name_text(s)) { unimplemented!() }
 // `substr == str` (arcstr): equality of the texts
